@@ -236,8 +236,12 @@ func HC05_statements() {
 	for _, c := range cols {
 		isCol[c] = true
 	}
-	sqlWords := map[string]bool{"select": true, "from": true, "where": true, "insert": true, "into": true, "values": true, "returning": true,
-		"update": true, "set": true, "delete": true, "any": true, "and": true, "or": true, "is": true, "null": true}
+	sqlWords := map[string]bool{}
+	for _, w := range strings.Fields("select from where insert into values returning update set delete any and or is null not in on conflict do nothing " +
+		"limit offset order by asc desc group having count as join left right inner outer cross distinct exists true false default like ilike between " +
+		"using case when then else end coalesce all union except intersect with for share nulls first last cast int bigint text boolean") {
+		sqlWords[w] = true
+	}
 	calls := c05Calls(text)
 	vfObserve("calls", len(calls)) // (the header is not observed: the package's own test files override the pq import path)
 	for _, c := range calls {
